@@ -46,6 +46,34 @@ Proof. rewrite loglist_keep_insideb. apply insideb_iff. Qed.
 Lemma loglist_no_interval t : loglist_compatible t None = true.
 Proof. reflexivity. Qed.
 
+(* ---------------- the NotAfter chosen for submissions to a log ---------------- *)
+
+Lemma not_after_for_log_inside now iv : nonempty iv -> inside (not_after_for_log now iv) iv.
+Proof.
+  destruct iv as [[s|] [l|]]; unfold nonempty, inside, not_after_for_log; cbn [fst snd]; intros NE.
+  - specialize (NE s l eq_refl eq_refl).
+    assert (D : 0 <= sub_sat l s <= l - s).
+    { unfold sub_sat. pose proof two63_pos. pose proof max_i64_eq. pose proof min_i64_eq. lia. }
+    assert (Q : 0 <= Z.quot (sub_sat l s) 2) by (apply Z.quot_pos; lia).
+    assert (Q' : Z.quot (sub_sat l s) 2 < l - s).
+    { destruct (Z.eq_dec (sub_sat l s) 0) as [E|E].
+      - rewrite E. cbn. lia.
+      - pose proof (Z.quot_lt (sub_sat l s) 2). lia. }
+    split; intros x E; inversion E; subst; lia.
+  - split; intros x E; inversion E; subst. unfold day_ns, hour_ns. lia.
+  - split; intros x E; inversion E; subst. unfold hour_ns. lia.
+  - split; intros x E; inversion E.
+Qed.
+
+Lemma not_after_for_log_admitted_routed now iv :
+  nonempty iv ->
+  let t := not_after_for_log now iv in
+  inside t iv /\ ctfe_admits t iv = true /\ client_selects t iv = true.
+Proof.
+  intros NE t. pose proof (not_after_for_log_inside now iv NE) as H. fold t in H.
+  split; [exact H|]. split; [apply ctfe_inside_iff | apply client_inside_iff]; exact H.
+Qed.
+
 (* ---------------- shard lists ---------------- *)
 
 (* [contiguous prev l]: every interval of l starts exactly where the previous one ended,
